@@ -39,6 +39,8 @@ def hist_to_ops(hist: list) -> list[dict]:
             ops.append({"op": "aseeds", "size": h[1]})
         elif k == "block":
             ops.append({"op": "block", "maa": bool(h[1]), "size": h[2], "optsrc": bool(h[3]), "exact": False})
+        elif k == "scc":
+            ops.append({"op": "scc", "maa": bool(h[1])})
         elif k == "skipmin":
             ops.append({"op": "skipmin", "n": h[1]})
         elif k == "skiprem":
